@@ -125,20 +125,31 @@ class GateReplacer(Visitor):
         return BlockStatement(
             parallel=block.parallel,
             subcircuit=block.subcircuit,
-            iterations=self.visit(block.iterations),
+            iterations=self.visit_count(block.iterations, "Subcircuit"),
             statements=new_statements,
         )
 
     def visit_LoopStatement(self, loop: LoopStatement):
         return LoopStatement(
-            iterations=self.visit(loop.iterations),
+            iterations=self.visit_count(loop.iterations, "Loop"),
             statements=self.visit(loop.statements),
         )
+
+    def visit_count(self, count, what):
+        """Substitute into a loop or subcircuit count; an argument that is not
+        an integer cannot be one."""
+        count = filter_float(self.visit(count))
+        if isinstance(count, bool) or not isinstance(count, (int, AnnotatedValue)):
+            raise JaqalError(f"{what} count {count} is not an integer")
+        return count
 
     def visit_GateStatement(self, gate: GateStatement):
         new_parameters = {
             name: self.visit(param) for name, param in gate.parameters.items()
         }
+        for param in gate.gate_def.parameters:
+            # An argument of the wrong kind for the gate it ends up in
+            param.validate(new_parameters[param.name])
         new_gate = GateStatement(gate.gate_def, new_parameters)
         return replace_gate(new_gate, self.macros)
 
@@ -156,6 +167,8 @@ class GateReplacer(Visitor):
         """This happens when the user indexes a qubit register."""
         alias_from = self.visit(qubit.alias_from)
         alias_index = filter_float(self.visit(qubit.alias_index))
+        if not isinstance(alias_from, (Register, Parameter)):
+            raise JaqalError(f"Cannot index {alias_from}: it is not a register")
         return alias_from[alias_index]
 
 
